@@ -15,7 +15,7 @@ struct Snap { size_t after_op; unsigned nss, nrs; int state; bool has_ctrl; unsi
 struct World
 {
 	// configuration (from plan knobs)
-	bool initiator = false; int pm = pm_thread; int pers = 1; int hb = 30; bool enforce = true; bool always_assign = false;
+	bool initiator = false; int pm = pm_thread; int pers = 1; int hb = 30; bool enforce = true; bool always_assign = false; bool tweak = false;
 	unsigned cfg_send = 0, cfg_recv = 0; uint64_t net_seed = 1; NetCfg net; bool reset_flag = false;
 	std::string ses_id = "SES", peer_id = "PEER"; Clients clients; std::string peer_ip = "127.0.0.1";
 	// objects
@@ -30,7 +30,7 @@ struct World
 	{
 		initiator = p.knob("initiator") != 0; pm = (int)p.knob("pm", pm_thread); pers = (int)p.knob("pers", 1); hb = (int)p.knob("hb", 30);
 		enforce = p.knob("enforce", 1) != 0; cfg_send = (unsigned)p.knob("cfg_send", 0); cfg_recv = (unsigned)p.knob("cfg_recv", 0);
-		net_seed = (uint64_t)p.knob("net_seed", 1);
+		net_seed = (uint64_t)p.knob("net_seed", 1); tweak = p.knob("tweak_outbound", 0) != 0;
 		net.short_read = p.knob("short_read_pm") / 1000.0; net.short_write = p.knob("short_write_pm") / 1000.0; net.eagain = p.knob("eagain_pm") / 1000.0; net.dribble = p.knob("dribble_pm") / 1000.0;
 	}
 	static void draw_net_knobs(Plan& p, sim::Rng& rng)
@@ -64,7 +64,7 @@ struct World
 			if (initiator) ses = new Node("ses", UTEST::ctx(), SessionID(f8String("FIX.4.2"), f8String(ses_id), f8String(peer_id)), per);
 			else ses = new Node("ses", UTEST::ctx(), sender_comp_id(ses_id), per);
 			LoginParameters lp = login_params(hb, enforce); lp._always_seqnum_assign = always_assign; lp._reset_sequence_numbers = reset_flag; lp._clients = clients;
-			ses->set_login_parameters(lp);
+			ses->set_login_parameters(lp); ses->tweak_outbound = tweak;
 		}
 		if (initiator) conn = new ClientConnection(sock, addr, *ses, (unsigned)hb, (ProcessModel)pm);
 		else conn = new ServerConnection(sock, addr, *ses, (unsigned)hb, (ProcessModel)pm);
